@@ -15,7 +15,7 @@ EPS = 2.0 ** -52
 ROUND_UNIT = 1e-12          # the code rounds the aligned base to 12 decimals
 FMTS = ["xyz", "uvw", "UVTW", "hkl", "hkil"]
 NIDX = {"xyz": 3, "uvw": 3, "hkl": 3, "UVTW": 4, "hkil": 4}
-KERNELS = ["_hkl2hkil", "_hkil2hkl", "_uvw2UVTW", "_UVTW2uvw"]
+KERNELS = ["hkl2hkil", "hkil2hkl", "uvw2UVTW", "UVTW2uvw"]   # T-ast names of miller._hkl2hkil etc.
 SYSTEMS = ["cubic", "tetragonal", "orthorhombic", "hexagonal", "trigonal", "monoclinic", "triclinic", "neardegenerate"]
 
 
@@ -211,7 +211,7 @@ def i4_lines(c):
     ls = [f"lat i4 check {hexes(q)}", f"lat i4 hkil2hkl {hexes(q)}", f"lat i4 UVTW2uvw {hexes(q)}",
           f"lat i4 hkl2hkil {hexes(c['v'])}", f"lat i4 uvw2UVTW {hexes(c['v'])}"]
     for k in KERNELS:
-        arg = q if k in ("_hkil2hkl", "_UVTW2uvw") else c["v"]
+        arg = q if k in ("hkil2hkl", "UVTW2uvw") else c["v"]
         ls.append(f"kern g {k} f {hexes(arg)}")
     return ls
 
@@ -238,8 +238,8 @@ def i4_check(ctx, c, outs):
     for k, o in zip(KERNELS, outs[5:]):
         if o.startswith("!err unknown"):
             continue
-        if floats(o) != [float(x) for x in impl[k]]:
-            res.append(f"generated kernel {k} = {floats(o)} but implementation = {impl[k].tolist()}")
+        if floats(o) != [float(x) for x in impl["_" + k]]:
+            res.append(f"generated kernel {k} = {floats(o)} but implementation = {impl['_' + k].tolist()}")
     return "; ".join(res) if res else None
 
 
